@@ -1033,10 +1033,19 @@ class RandomMinCRepPreOCF(PreOCF):
             "signature": self.signature,
         }
 
-        if fmt == "json":
+        # A recognised file extension determines the format (as in save_metadata and
+        # as import_impacts expects); otherwise the explicit fmt argument is used.
+        if path.suffix.lower() == ".json":
+            target_fmt = "json"
+        elif path.suffix.lower() in {".pkl", ".pickle"}:
+            target_fmt = "pickle"
+        else:
+            target_fmt = fmt
+
+        if target_fmt == "json":
             with path.open("w") as fd:
                 json.dump(impact_data, fd, indent=2)
-        elif fmt == "pickle":
+        elif target_fmt == "pickle":
             with path.open("wb") as fd:
                 pickle.dump(impact_data, fd)
         else:
@@ -1048,13 +1057,22 @@ class RandomMinCRepPreOCF(PreOCF):
         if not path.exists():
             raise FileNotFoundError(f"Impact file not found: {path}")
 
-        # Determine format from file extension
-        if path.suffix == ".json":
+        # Determine format from file extension (mirrors export_impacts)
+        suffix = path.suffix.lower()
+        if suffix == ".json":
             with path.open("r") as fd:
                 impact_data = json.load(fd)
-        else:  # assume pickle
+        elif suffix in {".pkl", ".pickle"}:
             with path.open("rb") as fd:
                 impact_data = pickle.load(fd)
+        else:
+            # export_impacts writes either format to such a path (JSON by default)
+            with path.open("rb") as fd:
+                raw = fd.read()
+            try:
+                impact_data = json.loads(raw.decode("utf-8"))
+            except (UnicodeDecodeError, ValueError):
+                impact_data = pickle.loads(raw)
 
         # Validate the imported data
         if not isinstance(impact_data, dict):
